@@ -68,6 +68,9 @@ pub enum Dev {
     Fee(u64),
     Script(ScriptK),
     NoCpScript,
+    /// the counterparty's output pays a script the holder could claim as its own (raw entry
+    /// point: the outputs may then be assigned to the parties either way round)
+    CpScript(CpK),
     /// allowlist edited after setup and before signing: remove everything
     AllowlistCleared,
     /// phase 1 only: outputs in the other order
@@ -85,8 +88,19 @@ pub enum Dev {
 fn dev_kind(d: &Dev) -> String {
     match d {
         Dev::Script(k) => format!("Script{:?}", k),
+        Dev::CpScript(k) => format!("CpScript{:?}", k),
         _ => format!("{:?}", d).split('(').next().unwrap().to_string(),
     }
+}
+
+#[derive(Clone, Copy, Debug, PartialEq, Eq, Hash, Serialize, Deserialize)]
+pub enum CpK {
+    /// wallet address at path 8, presented with path 8
+    Wallet,
+    /// wallet address at path 8, presented without a path
+    WalletNoPath,
+    /// the allowlisted foreign script
+    Allowlisted,
 }
 
 #[derive(Clone, Debug, PartialEq, Eq, Hash, Serialize, Deserialize)]
@@ -148,6 +162,7 @@ struct Built {
     script_kind: ScriptK,
     cleared: bool,
     upfront_script: Option<ScriptBuf>,
+    cp_kind: Option<CpK>,
 }
 
 const CLOSE_WITNESS_WEIGHT: u64 = 2 + 1 + 4 + 72 + 72 + 1 + 1 + 33 + 1 + 33 + 1 + 1;
@@ -227,6 +242,7 @@ fn run_case(case: &Case) -> Res {
     let mut fee: Option<u64> = None;
     let mut fee_rate: u64 = 1000;
     let mut no_cp_script = false;
+    let mut cp_kind: Option<CpK> = None;
     let mut cleared = false;
     for d in &case.devs {
         match d {
@@ -236,6 +252,7 @@ fn run_case(case: &Case) -> Res {
             Dev::Fee(x) => fee = Some(*x),
             Dev::Script(k) => script_kind = *k,
             Dev::NoCpScript => no_cp_script = true,
+            Dev::CpScript(k) => cp_kind = Some(*k),
             Dev::AllowlistCleared => cleared = true,
             _ => {}
         }
@@ -263,7 +280,17 @@ fn run_case(case: &Case) -> Res {
         },
         ScriptK::Absent => (None, DerivationPath::master()),
     };
-    let cp_script = if no_cp_script { None } else { Some(cp_close_script()) };
+    let (cp_script, cp_path) = if no_cp_script {
+        (None, DerivationPath::master())
+    } else {
+        match cp_kind {
+            None => (Some(cp_close_script()), DerivationPath::master()),
+            Some(CpK::Wallet) => (Some(wallet_script(&ch.w, 8)), wallet_path(8)),
+            Some(CpK::WalletNoPath) => (Some(wallet_script(&ch.w, 8)), DerivationPath::master()),
+            Some(CpK::Allowlisted) => (Some(foreign_script(1)), DerivationPath::master()),
+        }
+    };
+    let cp_kind = if no_cp_script { None } else { cp_kind };
     // estimated weight of the two-output close (the reference uses its own weight below)
     let est_weight = 4 * (10 + 41 + 2 * 31) as u64 + CLOSE_WITNESS_WEIGHT;
     let fee = fee.unwrap_or(fee_rate * est_weight / 1000);
@@ -281,7 +308,7 @@ fn run_case(case: &Case) -> Res {
         to_holder = 0;
     }
     let upfront_script = ch.setup.holder_shutdown_script.clone();
-    let b = Built { to_holder, to_cp, holder_script: holder_script.clone(), cp_script: cp_script.clone(), path: path.clone(), script_kind, cleared, upfront_script };
+    let b = Built { to_holder, to_cp, holder_script: holder_script.clone(), cp_script: cp_script.clone(), path: path.clone(), script_kind, cleared, upfront_script, cp_kind };
     if cleared {
         let node = ch.w.node.clone();
         let _ = call(move || node.set_allowlist(&[]).map_err(|e| status_kind(&e)));
@@ -314,7 +341,15 @@ fn run_case(case: &Case) -> Res {
         let mut paths: Vec<DerivationPath> = tx
             .output
             .iter()
-            .map(|o| if Some(&o.script_pubkey) == b.holder_script.as_ref() && o.value.to_sat() == b.to_holder { b.path.clone() } else { DerivationPath::master() })
+            .map(|o| {
+                if Some(&o.script_pubkey) == b.holder_script.as_ref() && o.value.to_sat() == b.to_holder {
+                    b.path.clone()
+                } else if Some(&o.script_pubkey) == b.cp_script.as_ref() {
+                    cp_path.clone()
+                } else {
+                    DerivationPath::master()
+                }
+            })
             .collect();
         for d in &case.devs {
             match d {
@@ -487,7 +522,13 @@ fn reference(case: &Case, v: &SetupV, vw: &Views, b: &Built, vals: (u64, u64, u6
     // raw entry point: the statement holds if SOME assignment of the outputs to the parties
     // satisfies it.  The other assignment gives the holder the counterparty's output and vice versa.
     let swapped_holder_script = b.cp_script.clone().filter(|_| b.to_cp > 0);
-    let swapped_ok = false; // the counterparty's close script is neither in the wallet nor allowlisted
+    // the counterparty's ordinary close script is neither in the wallet nor allowlisted
+    let swapped_ok = match b.cp_kind {
+        None => false,
+        Some(CpK::Wallet) => true,
+        Some(CpK::WalletNoPath) => false,
+        Some(CpK::Allowlisted) => !b.cleared,
+    };
     let other = ref_assignment(v, vw, b.to_cp, b.to_holder, &swapped_holder_script, swapped_ok, &upfront_script, weight, vals);
     if other.is_ok() {
         return other;
@@ -517,6 +558,9 @@ fn alphabet(case: &Case) -> Vec<Dev> {
         v.push(Dev::Script(k));
     }
     v.push(Dev::NoCpScript);
+    for k in [CpK::Wallet, CpK::WalletNoPath, CpK::Allowlisted] {
+        v.push(Dev::CpScript(k));
+    }
     v.push(Dev::AllowlistCleared);
     if case.phase1 {
         v.push(Dev::Swap);
